@@ -236,7 +236,7 @@ def validate_evidence(ev):
     return 'core-rules-only'
 
 
-def write_evidence(prop, tier, seed, level, merged, wall):
+def write_evidence(prop, tier, seed, level, merged, wall, strict=True):
     cov = {
         'evaluations': merged['evaluations'],
         'distinct_nontrivial': merged['distinct_nontrivial'],
@@ -259,8 +259,15 @@ def write_evidence(prop, tier, seed, level, merged, wall):
         'wall_s': round(wall, 3),
         'violations': merged['n_violations'],
     }
-    how = validate_evidence(json.loads(json.dumps(ev, default=repr)))
+    try:
+        how = validate_evidence(json.loads(json.dumps(ev, default=repr)))
+    except HarnessError as e:
+        if strict:
+            raise
+        how = f'NOT VALID (run ended early at a violation): {e}'
     ev['coverage']['evidence_validated_with'] = how
+    if os.environ.get('IXV_NO_EVIDENCE'):
+        return '(evidence not written: IXV_NO_EVIDENCE)'
     os.makedirs(os.path.join(VERIF, 'evidence'), exist_ok=True)
     path = os.path.join(VERIF, 'evidence', f'{prop}.json')
     tmp = path + '.tmp'
